@@ -27,10 +27,15 @@ def gen_case(rng, n_ops, faults=False, crashes=False):
         out.append(f"sess {s} {u} {lvl} {bg}".strip())
     ntop = 0
     contents = 0
+    att = {}            # topic -> sessions that probably are attached (a guess: used only to bias the choice of actors)
     for _ in range(n_ops):
         s, su, lvl, _ = rng.choice(sess)
         k = rng.below(100)
         t = f"T{1 + rng.below(ntop)}" if ntop else None
+        if t and k >= 22 and att.get(t) and rng.chance(3, 4):
+            # requests other than {sub} mostly come from sessions which are attached
+            s = rng.choice(sorted(att[t]))
+            su, lvl = [(x[1], x[2]) for x in sess if x[0] == s][0]
         pre = []
         if t and faults and rng.chance(1, 6):
             pre.append(f"fail {1 + rng.below(4)}")
@@ -55,6 +60,7 @@ def gen_case(rng, n_ops, faults=False, crashes=False):
                 o += f" pub=pb{rng.below(5)}"
             out.append(o + asx)
             ntop += 1
+            att.setdefault(f"T{ntop}", set()).add(s)
             continue
         if k < 22:
             o = f"sub {s} {t}"
@@ -112,9 +118,95 @@ def gen_case(rng, n_ops, faults=False, crashes=False):
             out.append(f"unload {t}")
             if crashes and rng.chance(1, 3):
                 out.append("restart")
+                att = {}
             continue
+        if o.startswith("sub "):
+            att.setdefault(t, set()).add(s)
+        elif o.startswith("leave ") or o.startswith("deltopic "):
+            att.get(t, set()).discard(s)
         out.extend(pre)
         out.append(o + asx)
         if any(p.startswith("crash") for p in pre) and rng.chance(1, 2):
             out.append("restart")
+            att = {}
+        elif rng.chance(1, 40):
+            out.append("restart")          # a clean stop and start: every topic is loaded again from the store
+            att = {}
     return out
+
+
+# ---------------------------------------------------------------------------------------------- stream definition
+
+def gen_world(rng, tier):
+    ncases = 160 if tier == "thorough" else 40
+    for i in range(ncases):
+        faults = i % 3 == 1
+        crashes = i % 3 == 2
+        for l in gen_case(rng, 30 + rng.below(90), faults=faults, crashes=crashes):
+            yield l
+
+
+def classify(op, out):
+    w = op.split(" ")
+    if w[0] in ("reset", "user", "sess", "fail", "crash"):
+        return "trivial"
+    if len(w) > 1:
+        for p in out.split(" | "):
+            if p.startswith(w[1] + "<-"):
+                f = p.split("<-", 1)[1].split(" ")
+                return f[0] + (" " + f[1] if f[0] == "ctrl" else "")
+    return "silent"
+
+
+def make_post(pid):
+    from . import worldmon
+
+    def post(ctx, ops, impl):
+        return worldmon.run_monitor(pid, ops, impl)
+    return post
+
+
+def make_post_min(pid):
+    """greedy removal of request lines while the same monitor rule still fails on the implementation"""
+    import re
+    from . import worldmon, runner
+
+    def norm(why):
+        return re.sub(r"\d+", "#", why)
+
+    def post_min(ctx, st, binpath, case, why):
+        cur = list(case)
+        budget = 30
+        i = len(cur) - 2
+        while i >= 1 and budget > 0:
+            if cur[i].split(" ")[0] in ("user", "sess", "reset"):
+                i -= 1
+                continue
+            cand = cur[:i] + cur[i + 1:]
+            impl, _, _ = runner.run_stream_once(ctx, st, binpath, cand, "min")
+            budget -= 1
+            res = worldmon.run_monitor(pid, cand, impl)
+            if any(norm(w2) == norm(why) and len(c2) == len(cand) for c2, w2 in res):
+                cur = cand
+            i -= 1
+        return cur
+    return post_min
+
+
+def world_stream(pid):
+    return dict(name="world", pkg="main", test="TestVerifWorld", gen=gen_world, classify=classify, model_mode="world",
+                verdict_mode=None, post=make_post(pid), post_min=make_post_min(pid))
+
+
+WORLD_TRUSTED = [
+    "world stream: the Go harness drives the real Session.dispatch, Hub and Topic handlers one request at a time over an in-memory "
+    "store adapter (harness/overlay/main/verif_memadapter_test.go) written from the MySQL adapter's statements; the adapter is part "
+    "of the trusted base, the goroutine scheduling of the real server is replaced by a deterministic pump",
+    "Model/World.lean, TopicGrp.lean, TopicOps.lean, TopicReq.lean are a hand transcription of the group-topic handlers; they are "
+    "tied to the code only by the differential run (same requests, byte-identical replies, traffic, adapter calls and state digests)",
+    "history monitors (vlib/worldmon.py) decide the property on the implementation's own output when the tie is broken",
+]
+WORLD_ASSUMPTIONS = [
+    "group topics only (no channels, p2p, me/fnd/sys), one server node, requests processed one at a time in arrival order",
+    "at most one injected store failure or crash point per request",
+]
